@@ -368,3 +368,24 @@ func (r *Result) SortedOutcomes() []string {
 	sort.Strings(ks)
 	return ks
 }
+
+// FreeRun executes body n times on real goroutines (shims in pass-through, doubles serialised by a
+// real lock) for the separate -race pass; oracle failures are ignored, it only exists to let the race
+// detector watch the implementation's own memory accesses.
+func FreeRun(body Body, n int) (panics int) {
+	vsched.SetFreeRun(true)
+	defer vsched.SetFreeRun(false)
+	for i := 0; i < n; i++ {
+		vclock.Reset()
+		vrand.Reset()
+		func() {
+			defer func() {
+				if r := recover(); r != nil {
+					panics++
+				}
+			}()
+			body(&Ctx{})
+		}()
+	}
+	return
+}
